@@ -7,15 +7,15 @@ from vlib import runner, tlc
 import concurrent.futures as cf
 
 CHILD = os.path.join(runner.ROOT, "engine/pure/wrapper_child.py")
-CALLABLE = {"lambda", "closure", "rec", "cinst", "ccls_inst"}
-STATEFUL = {"closure", "cinst", "inst", "ccls_inst", "cls_inst"}
+CALLABLE = {"lambda", "closure", "rec", "cinst", "ccls_inst", "icinst", "icls_inst"}
+STATEFUL = {"closure", "cinst", "inst", "ccls_inst", "cls_inst", "icinst", "icls_inst"}
 
 
 def proj(h):
     k = str(h["kind"])
     if k == "none":
         return None
-    iscls = k in ("ccls", "cls")
+    iscls = k in ("ccls", "cls", "icls")
     p = dict(w=([True] if h["w"] else []) if iscls else [bool(x) for x in h["w"]], callable=True if iscls else (k in CALLABLE))
     if k in STATEFUL:
         p["st"] = h["st"]
